@@ -6,7 +6,7 @@ import ast
 from ..loader import AnalysisError, dotted, norm, walk_no_defs
 from ..paths import FOREIGN, FP, PE, Exc, Executor, Out, Semantics
 from ..report import RuleReport
-from ..rules.common import rule_chain
+from ..rules.common import through_locals, rule_chain
 from ..rules.frames import (POPPERS, PUSHERS, classify_exc, generic_hole, pushing_functions, stack_op)
 
 LEVEL = 'other'
@@ -44,6 +44,14 @@ FRAME_CLASSES = {
     f'{CORE}.statescope': 'wrapper: its failure already fails the enclosing scope construct, nothing to propagate',
     f'{CTX}.isolate': 'transparent: sits between a cut site in a repetition element and the option() frame of the '
                       'iteration, must hand the popped frame\'s cutseen to the enclosing frame',
+    f'{CTX}.skipgroup': 'transparent: (?: ...) is not a cut scope, must hand the popped frame\'s cutseen to the enclosing frame',
+}
+
+
+WRAPPER_USERS = {
+    f'{CTX}.closure': 'scope: a closure iteration is a cut scope of the property (first iteration under optional(), later ones under option())',
+    f'{CTX}.positive_closure': 'scope: the mandatory first iteration fails the whole repetition anyway',
+    f'{ENGINE}.func_call': 'barrier: rule boundary',
 }
 
 
@@ -59,6 +67,7 @@ def r1_flag_ownership(a, tier):
         'tatsu.contexts.state.ParseState.__init__': 'False',
         f'{CORE}.cut': 'True',
         f'{CTX}.isolate': 'True',
+        f'{CTX}.skipgroup': 'True',
     }
     seen = set()
     for f in a.p.functions.values():
@@ -86,21 +95,39 @@ def r1_flag_ownership(a, tier):
         if q not in seen:
             rep.fail(q, 'cutseen-missing', f'{q} no longer writes cutseen', a.p.func(q).loc)
     cut = a.p.func(f'{CORE}.cut')
-    first = next((s for s in cut.node.body if not (isinstance(s, ast.Expr) and isinstance(s.value, ast.Constant))), None)
-    ok = isinstance(first, ast.Assign) and norm(first) == 'self.state.cutseen = True'
-    rep.add({'cut_first_statement': norm(first) if first else None, 'ok': ok})
+
+    class CutSem(Semantics):
+        """'set' once <x>.state.cutseen = True (or <x>.cutseen on an alias of the current state) ran; 'late' when a call or a branch
+        precedes it"""
+
+        def stmt(self, ex, fn, node, state):
+            if ex.in_extent(fn) and isinstance(node, ast.Assign) and any(isinstance(t, ast.Attribute) and t.attr == 'cutseen' for t in node.targets) \
+                    and norm(node.value) == 'True':
+                t = next(t for t in node.targets if isinstance(t, ast.Attribute) and t.attr == 'cutseen')
+                recv = norm(through_locals(fn, t.value))
+                if recv in ('self.state', 'self.states.state'):
+                    return frozenset(state | {'set'})
+            return state
+
+        def call(self, ex, fn, node, state):
+            if 'set' not in state:
+                state = frozenset(state | {'late'})
+            return ex.default_call(fn, node, state)
+
+        def test(self, ex, fn, test, state):
+            if 'set' not in state:
+                state = frozenset(state | {'late'})
+            return [state], [state]
+
+    outs = Executor(a.p, a.ct, a.resolver, CutSem(), raises=a.raises).run(cut, frozenset())
+    unset = [o for o in outs if o.kind == 'return' and 'set' not in o.state]
+    late = [o for o in outs if 'late' in o.state]
+    ok = not unset and not late and bool(outs)
+    rep.add({'cut_records_the_cut_first_on_every_path': ok, 'exits': len(outs)})
     if not ok:
         rep.fail(cut.qualname, 'cut-not-first', 'cut() does not begin with `self.state.cutseen = True` on the current frame '
-                 '(a conditional or later store can be skipped by the early return for pruning)', cut.loc)
-    # the slot exists and copies do not carry it
-    ps = a.p.cls('tatsu.contexts.state.ParseState')
-    for m in ('clone', '__copy__', 'merge'):
-        fn = ps.methods.get(m)
-        if fn is not None:
-            reads = [n for n in walk_no_defs(fn.node) if isinstance(n, ast.Attribute) and n.attr == 'cutseen']
-            rep.add({'fn': fn.qualname, 'mentions_cutseen': bool(reads)})
-            if reads:
-                rep.fail(fn.qualname, 'cutseen-copied', f'{m}() reads cutseen: the flag of one frame leaks into another', fn.loc)
+                 '(a conditional or later store can be skipped by the early return for pruning' + ('; a call or a test runs before the store)' if late else ')'),
+                 cut.loc)
     return rep
 
 
@@ -212,23 +239,18 @@ def r2_scope_protocol(a, tier):
     return rep
 
 
-def r3_frame_classification(a, tier):
-    rep = RuleReport(
-        'C05.R3',
-        'every function that pushes a state frame is classified: scope construct (R2), barrier by documentation '
-        '(lookahead, rule boundary), wrapper (statescope: re-raises after undo, so the failure fails the scope construct '
-        'around it) or transparent (isolate: hands the popped frame\'s cutseen to the enclosing frame on every exit); '
-        'an unclassified pusher is a violation until reviewed',
-        floor=8,
-    )
-    for f in pushing_functions(a):
-        cls = FRAME_CLASSES.get(f.qualname)
-        rep.add({'pusher': f.qualname, 'class': cls})
-        if cls is None:
-            rep.fail(f.qualname, 'unclassified-frame', 'pushes a state frame but is not classified as scope / barrier / '
-                     'wrapper / transparent: a cut executed under this frame may be lost or leaked', f.loc)
-    # transparent: isolate
-    iso = a.p.func(f'{CTX}.isolate')
+def frame_signature(a, f):
+    """what happens to the frame(s) a pusher opens, per exit: (exit kind, exception family, closing operations, net depth)"""
+    outs, _sem = _scope_outcomes(a, f)
+    sig = set()
+    for o in outs:
+        _d, flags = o.state
+        fam = classify_exc(a, o.exc) if o.exc else '-'
+        sig.add((o.kind, fam, tuple(sorted(x for x in flags if x.startswith('closed:'))), _d))
+    return frozenset(sig)
+
+
+def _check_transparent(a, rep, iso):
 
     class IsoSem(ScopeSem):
         def stmt(self, ex, fn, node, state):
@@ -246,7 +268,11 @@ def r3_frame_classification(a, tier):
 
     sem = IsoSem(a, iso)
     ex = Executor(a.p, a.ct, a.resolver, sem, raises=a.raises)
-    outs = ex.run(iso, (0, frozenset()))
+    is_cm = any(d.split('.')[-1] == 'contextmanager' for d in iso.decorators)
+
+    def hole(state):
+        return {Out('next', state), Out('raise', state, Exc(PE, 'body@with')), Out('raise', state, Exc(FOREIGN, 'body@with'))}
+    outs = ex.run(iso, (0, frozenset()), hole=hole if is_cm else None)
     kinds = {(o.kind if o.kind != 'raise' else classify_exc(a, o.exc)): False for o in outs}
     for o in outs:
         k = o.kind if o.kind != 'raise' else classify_exc(a, o.exc)
@@ -255,12 +281,87 @@ def r3_frame_classification(a, tier):
     rep.add({'transparent': iso.qualname, 'hand_over_reachable_per_exit': kinds})
     for k in ('return', 'failedparse'):
         if k in kinds and not kinds[k]:
-            rep.fail(iso.qualname, f'cut-dropped:{k}', f'isolate() discards its frame on the `{k}` exit without handing the '
+            rep.fail(iso.qualname, f'cut-dropped:{k}', f'{iso.name}() discards its frame on the `{k}` exit without handing the '
                      f'frame\'s cutseen to the enclosing frame: a cut inside iteration >= 2 of a closure/join is lost '
                      f'(iteration 1 runs directly under optional() and keeps it)', iso.loc)
     if any('bad-handover' in o.state[1] for o in outs):
-        rep.fail(iso.qualname, 'handover-before-pop', 'isolate() stores cutseen before popping its own frame (the store '
+        rep.fail(iso.qualname, 'handover-before-pop', f'{iso.name}() stores cutseen before popping its own frame (the store '
                  'lands on the frame being discarded) or stores a value not read from that frame', iso.loc)
+
+
+def r3_frame_classification(a, tier):
+    rep = RuleReport(
+        'C05.R3',
+        'every function that pushes a state frame is classified: scope construct (R2), barrier by documentation '
+        '(lookahead, rule boundary), wrapper (statescope: re-raises after undo, so the failure fails the scope construct '
+        'around it) or transparent (isolate: hands the popped frame\'s cutseen to the enclosing frame on every exit); '
+        'an unclassified pusher is a violation until reviewed',
+        floor=8,
+    )
+    signature = lambda f: frame_signature(a, f)  # noqa: E731
+    reviewed_sigs = {}
+    for q, c in FRAME_CLASSES.items():
+        if c.startswith(('barrier', 'wrapper')) and q in a.p.functions:
+            try:
+                reviewed_sigs[q] = signature(a.p.functions[q])
+            except Exception:  # noqa: BLE001
+                pass
+    for f in pushing_functions(a):
+        cls = FRAME_CLASSES.get(f.qualname)
+        if cls is None:
+            # every exit treats the frame as some exit of a reviewed barrier / wrapper does (push ... merge | undo + re-raise, written
+            # with explicit calls instead of the context manager): classified like it
+            try:
+                sg = signature(f)
+                twin = next((q for q, s_ in reviewed_sigs.items() if sg and sg <= s_ and any(k == 'return' for k, *_ in sg)), None)
+            except Exception:  # noqa: BLE001
+                twin = None
+            if twin:
+                cls = f'like {twin.split(".")[-1]}: {FRAME_CLASSES[twin]}'
+        rep.add({'pusher': f.qualname, 'class': cls})
+        if cls is None:
+            rep.fail(f.qualname, 'unclassified-frame', 'pushes a state frame but is not classified as scope / barrier / '
+                     'wrapper / transparent: a cut executed under this frame may be lost or leaked', f.loc)
+    # users of the wrapper: a cut executed in a statescope() frame dies with that frame (merge/pop/undo do not hand cutseen on), so
+    # every construct built on statescope() must be a cut scope of its own (closure: the property names closure iterations), a
+    # barrier (rule boundary), or hand the flag on itself
+    for f in a.p.functions.values():
+        if not f.qualname.startswith(('tatsu.contexts.', 'tatsu.peg.', 'tatsu.parsing')) or f.qualname == f'{CORE}.statescope':
+            continue
+        uses = [n for n in walk_no_defs(f.node) if isinstance(n, ast.With) and any(
+            isinstance(it.context_expr, ast.Call) and dotted(it.context_expr.func).split('.')[-1] == 'statescope' for it in n.items)]
+        if not uses:
+            continue
+        cls = WRAPPER_USERS.get(f.qualname)
+        rep.add({'wrapper_user': f.qualname, 'class': cls})
+        if cls is None:
+            rep.fail(f.qualname, 'wrapper-user-drops-cut', f'{f.name}() evaluates its body in a statescope() frame and is neither a cut '
+                     f'scope of its own nor a rule boundary: a cut executed in that body marks the statescope frame, which is discarded '
+                     f'without handing cutseen on, so the enclosing choice/optional/repetition backtracks over a committed failure',
+                     f'{f.module.relpath}:{uses[0].lineno}')
+    # inside the frame of a scope construct, a combinator of the context evaluates its element directly, through isolate()
+    # (transparent) or through repeat() (each iteration has its own option() scope) - never through a method that wraps the
+    # element in a statescope() frame, which would take the cut away from the frame the scope construct inspects
+    wrapped = set(WRAPPER_USERS) | {f.qualname for f in a.p.functions.values() if f.qualname.startswith(CTX + '.') and any(
+        isinstance(n, ast.With) and any(isinstance(it.context_expr, ast.Call) and dotted(it.context_expr.func).split('.')[-1] == 'statescope'
+                                        for it in n.items) for n in walk_no_defs(f.node))}
+    wrapped_names = {q.split('.')[-1] for q in wrapped} | {'_' + q.split('.')[-1] for q in wrapped}
+    ctxc = a.p.cls(CTX)
+    for mname, m in ctxc.methods.items():
+        for w in [n for n in walk_no_defs(m.node) if isinstance(n, ast.With) and any(
+                isinstance(it.context_expr, ast.Call) and dotted(it.context_expr.func) in ('self.optional', 'self.option', 'self._optional', 'self._option')
+                for it in n.items)]:
+            for c in [x for s_ in w.body for x in ast.walk(s_) if isinstance(x, ast.Call)]:
+                if isinstance(c.func, ast.Attribute) and norm(c.func.value) == 'self' and c.func.attr in wrapped_names \
+                        and any(isinstance(x, ast.Name) and x.id in m.params for x in [*c.args, *[k.value for k in c.keywords]]):
+                    rep.add({'scope_region_in': m.qualname, 'element_evaluated_through': c.func.attr, 'ok': False})
+                    rep.fail(m.qualname, f'element-behind-wrapper:{c.func.attr}', f'{mname}() evaluates its element inside its optional()/option() '
+                             f'frame through {c.func.attr}(), which runs the element in a statescope() frame: a cut in the element marks '
+                             f'that inner frame, the failure reaches the optional()/option() whose own frame saw no cut, and the '
+                             f'repetition silently matches nothing instead of failing', f'{m.module.relpath}:{c.lineno}')
+    # transparent frames: isolate, skipgroup
+    for iso in [a.p.func(q) for q, c in FRAME_CLASSES.items() if c.startswith('transparent')]:
+        _check_transparent(a, rep, iso)
     # wrapper: statescope re-raises every FailedParse of its body after undo
     ss = a.p.func(f'{CORE}.statescope')
     souts, _ = _scope_outcomes(a, ss)
@@ -283,18 +384,22 @@ def r4_join_commit(a, tier):
     fn = a.p.func(f'{CTX}.repeat')
     p_exp, p_prefix = fn.params[1], fn.params[2]
 
+    def origin(f, e):
+        """the parameter of repeat() that the expression E (a name in F, a function of repeat's extent) stands for"""
+        return a.extents.param_origin(fn, f, e.id) if isinstance(e, ast.Name) else None
+
     class Sem(Semantics):
         def call(self, ex, f, node, state):
             nm = dotted(node.func)
-            if f is fn and nm in ('self.isolate', 'self._isolate') and node.args:
-                arg = norm(node.args[0])
+            if ex.in_extent(f) and nm in ('self.isolate', 'self._isolate') and node.args:
+                arg = origin(f, node.args[0])
                 if arg == p_prefix:
                     state = frozenset((state - {'cut'}) | {'sep'})
                 elif arg == p_exp:
                     if 'sep' in state and 'cut' not in state:
                         state = frozenset(state | {'uncommitted'})
                     state = frozenset(state - {'sep', 'cut'})
-            if f is fn and nm in ('self.cut', 'self._cut'):
+            if ex.in_extent(f) and nm in ('self.cut', 'self._cut'):
                 state = frozenset(state | {'cut'})
             return ex.default_call(f, node, state)
 
@@ -302,7 +407,7 @@ def r4_join_commit(a, tier):
     outs = ex.run(fn, frozenset())
     bad = [o for o in outs if 'uncommitted' in o.state]
     has_sep = any(isinstance(n, ast.Call) and dotted(n.func) in ('self.isolate', 'self._isolate') and n.args
-                  and norm(n.args[0]) == p_prefix for n in walk_no_defs(fn.node))
+                  and origin(f, n.args[0]) == p_prefix for f, n in a.extents.walk(fn))
     rep.add({'fn': fn.qualname, 'separator_param': p_prefix, 'element_param': p_exp, 'separator_evaluated': has_sep,
              'commit_before_element_on_all_paths': not bad})
     if not has_sep:
